@@ -122,7 +122,7 @@ Proof.
   unfold send_message, queue_out, record_answer, qout.
   destruct (o_req m); [cbn; repeat split|].
   destruct (get_conn n cid); cbn [fst snd];
-    match goal with |- context [List.find ?f ?l] => destruct (List.find f l) as [[[? ?] ?]|] end;
+    match goal with |- context [List.find ?f ?l] => destruct (List.find f l) as [[[[? ?] ?] ?]|] end;
     cbn; repeat split.
 Qed.
 
@@ -719,29 +719,29 @@ Qed.
 (* C06: a CER is ignored unless the connection exists and is CONNECTED (the CER is awaited): a second CER, or a
    CER on an established, disconnecting or closing connection, is not answered and changes nothing except that
    the request, which will never be answered, leaves the origin table (drop_origin touches n_origin_waiting only) *)
-Lemma drop_origin_fields n h e :
-  n_cfg (drop_origin n h e) = n_cfg n /\ n_now (drop_origin n h e) = n_now n /\
-  n_io_deadline (drop_origin n h e) = n_io_deadline n /\ n_stopping (drop_origin n h e) = n_stopping n /\
-  n_peers (drop_origin n h e) = n_peers n /\ n_conns (drop_origin n h e) = n_conns n /\
-  n_next_cid (drop_origin n h e) = n_next_cid n /\ n_half_ready (drop_origin n h e) = n_half_ready n /\
-  n_socket_peers (drop_origin n h e) = n_socket_peers n /\ n_routes (drop_origin n h e) = n_routes n /\
-  n_apps (drop_origin n h e) = n_apps n /\ n_app_waiting (drop_origin n h e) = n_app_waiting n /\
-  n_peer_waiting (drop_origin n h e) = n_peer_waiting n /\ n_sent_answers (drop_origin n h e) = n_sent_answers n /\
-  n_e2e (drop_origin n h e) = n_e2e n /\
-  n_origin_waiting (drop_origin n h e) =
-    List.filter (fun x => let '(h', e', _) := x in negb ((h' =? h) && (e' =? e))) (n_origin_waiting n).
+Lemma drop_origin_fields n k0 h e :
+  n_cfg (drop_origin n k0 h e) = n_cfg n /\ n_now (drop_origin n k0 h e) = n_now n /\
+  n_io_deadline (drop_origin n k0 h e) = n_io_deadline n /\ n_stopping (drop_origin n k0 h e) = n_stopping n /\
+  n_peers (drop_origin n k0 h e) = n_peers n /\ n_conns (drop_origin n k0 h e) = n_conns n /\
+  n_next_cid (drop_origin n k0 h e) = n_next_cid n /\ n_half_ready (drop_origin n k0 h e) = n_half_ready n /\
+  n_socket_peers (drop_origin n k0 h e) = n_socket_peers n /\ n_routes (drop_origin n k0 h e) = n_routes n /\
+  n_apps (drop_origin n k0 h e) = n_apps n /\ n_app_waiting (drop_origin n k0 h e) = n_app_waiting n /\
+  n_peer_waiting (drop_origin n k0 h e) = n_peer_waiting n /\ n_sent_answers (drop_origin n k0 h e) = n_sent_answers n /\
+  n_e2e (drop_origin n k0 h e) = n_e2e n /\
+  n_origin_waiting (drop_origin n k0 h e) =
+    List.filter (fun x => negb (ow_key k0 h e x)) (n_origin_waiting n).
 Proof. repeat split. Qed.
-Lemma drop_origin_get_conn n h e k : get_conn (drop_origin n h e) k = get_conn n k.
+Lemma drop_origin_get_conn n k0 h e k : get_conn (drop_origin n k0 h e) k = get_conn n k.
 Proof. reflexivity. Qed.
-Lemma drop_origin_get_peer n h e p : get_peer (drop_origin n h e) p = get_peer n p.
+Lemma drop_origin_get_peer n k0 h e p : get_peer (drop_origin n k0 h e) p = get_peer n p.
 Proof. reflexivity. Qed.
-Lemma drop_origin_pnames n h e : pnames (drop_origin n h e) = pnames n.
+Lemma drop_origin_pnames n k0 h e : pnames (drop_origin n k0 h e) = pnames n.
 Proof. reflexivity. Qed.
 
 Theorem C06_cer_ignored_unless_connected n cid m :
   (forall c, get_conn n cid = Some c -> c_state c <> SConnected) ->
   recv_cer n cid m =
-  (match get_conn n cid with Some _ => drop_origin n (m_hbh m) (m_e2e m) | None => n end, []).
+  (match get_conn n cid with Some _ => drop_origin n cid (m_hbh m) (m_e2e m) | None => n end, []).
 Proof.
   intros H. unfold recv_cer. destruct (get_conn n cid) as [c0|]; [|reflexivity].
   specialize (H c0 eq_refl). destruct (c_state c0); try reflexivity. congruence.
